@@ -550,7 +550,7 @@ def d4_offer_on_registration(facts, rep):
     KEEPERS = ('input_node', 'buffer_node', 'limiter_node', 'overwrite_node', 'join_node_base')
     PUSH = ('spawn_put', 'try_put', 'try_put_task', 'spawn_in_graph_arena', 'enqueue_in_graph_arena', 'try_forward', 'create_put_task')
 
-    def push_attempt(f, e):
+    def push_attempt(f, e, depth=0):
         if not isinstance(e, int):
             return False
         nd = f.nodes[e]
@@ -561,6 +561,10 @@ def d4_offer_on_registration(facts, rep):
             return True
         if d.get('n') == 'new_object' and 'task' in (d.get('q') or ''):
             return True
+        # a helper of the same class hierarchy that does it (the spawn may be factored out)
+        g = facts.fns.get(nd.get('fn'))
+        if g is not None and depth < 2 and g.u != f.u and (g.cls or '').startswith(D2):
+            return any(push_attempt(g, e2, depth + 1) for b2, i2, e2 in g.iter_elems())
         return False
 
     from rules.common import handler_iterations
